@@ -461,6 +461,11 @@ func (d *Driver) ClockSource(weight int, steps ...time.Duration) Source {
 func (d *Driver) Finish() {
 	d.Sim.Stop()
 	synctest.Wait()
+	// tasks asleep on the simulated clock exit at their first statement after waking up
+	for i, dt := 0, time.Second; i < 24 && d.Sim.Pending() > 0; i, dt = i+1, dt*2 {
+		time.Sleep(dt)
+		synctest.Wait()
+	}
 	d.R.ProbeN("yields", int(d.Sim.Yields.Load()))
 	d.R.ProbeN("lock_blocks", int(d.Sim.LockBlocks.Load()))
 	d.R.ProbeN("pool_reuse", int(d.Sim.PoolReuse.Load()))
